@@ -37,7 +37,11 @@ Record mconf := {
   m_automap : list rstr;                    (* AutoMap paths *)
   m_raw_field_settings : bool;              (* len(RawFieldSettings) > 0 *)
   m_UpdateTarget : bool;
-  m_constructor : option N                  (* default FUNC *)
+  m_constructor : option N;                 (* default FUNC *)
+  m_enum_map : list (rstr * rstr);          (* enum:map SOURCE TARGET|@action, later lines override *)
+  m_enum_transforms : list (list (rstr * rstr));  (* per enum:transform line: source member -> result of the transformer's
+                                               rewriting (kept only when that is a target member) *)
+  m_enum_excluded : list N                  (* named types matched by enum:exclude *)
 }.
 
 (* accessors under the names the extractor emits for ctx.Conf.X *)
@@ -58,6 +62,7 @@ Definition cc_UpdateTarget (m : mconf) := m_UpdateTarget m.
 (* source.Enum(&ctx.Conf.Enum).OK : named, enum enabled, not excluded, detected *)
 Definition enum_ok (e : env) (m : mconf) (t : ty) : bool :=
   match t with
-  | TNamed id => c_Enum_Enabled (m_common m) && match lookup e id with Some d => n_enum d | None => false end
+  | TNamed id => c_Enum_Enabled (m_common m) && negb (existsb (N.eqb id) (m_enum_excluded m)) &&
+                 match lookup e id with Some d => n_enum d | None => false end
   | _ => false
   end.
